@@ -184,7 +184,7 @@ class Sim:
                     n.Ephem.DEFAULT_ORDER = kn["ephem_order"]
                 if kn.get("eps_bisect_us"):
                     n.mod("beyond.propagators.listeners").Speaker._eps_bisect = n.timedelta(microseconds=kn["eps_bisect_us"])
-        self.specs = kn["pool"]
+        self.specs = [dict(sp) for sp in kn["pool"]]  # a copy: set_order updates the description of an ephemeris, the plan stays as recorded
         self.pool = []
         self.props = []
         self.stations = []
@@ -277,7 +277,7 @@ class Sim:
         """Number of points an interpolation of ephemeris i needs: 2 for the linear method, the order for Lagrange."""
         if self.specs[i].get("interp") == "linear":
             return 2
-        return self.kn.get("ephem_order", 8)
+        return self.specs[i].get("order") or self.kn.get("ephem_order", 8)
 
     def can_interp(self, i):
         return len(self.table_ms(i)) >= self.order_of(i)
@@ -331,6 +331,7 @@ class Sim:
 
     # -------------------------------------------------------------- ops
     def run(self):
+        self.shared_ranges = {}
         ctx = self.ctx
         for op in self.plan["ops"]:
             name = op["op"]
@@ -380,6 +381,25 @@ class Sim:
         self.ctx.sig.append(("cache_clear", site))
         self.ctx.ev("cache_clear", site)
 
+    def op_set_order(self, op):
+        """The caller changes the interpolation order of an ephemeris it has (possibly) already used: from then on the ephemeris is
+        the one a fresh Ephem of the same points with that order would be."""
+        i = op["obj"] % len(self.pool)
+        if self.kind(i) != "ephem" or self.specs[i].get("interp") == "linear":
+            return
+        if any(t.obj == i and t.state in ("running", "created") for t in self.tasks.values()):
+            return  # not while an iteration over it is alive (its expectations were computed for the former order)
+        with self.node:
+            self.pool[i].order = op["order"]
+        self.specs[i] = dict(self.specs[i], order=op["order"])
+        self.ofresh_ephem.pop(i, None)
+        self.otable.pop(i, None)
+        for key in [k for k in self._ostate if k[0] == i]:
+            del self._ostate[key]
+        self.ctx.probe("ephemeris_order_changed_after_use")
+        self.ctx.sig.append(("set_order", op["order"]))
+        self.ctx.ev("set_order", i, op["order"])
+
     def op_propagate(self, op):
         i = op["obj"] % len(self.pool)
         kind = self.kind(i)
@@ -406,7 +426,7 @@ class Sim:
         if kind == "ephem" and not self.can_interp(i):
             ctx.ev("propagate", i, kind, ms, type(exc).__name__ if exc else "ok")
             if not isinstance(exc, ValueError):
-                ctx.violate("value-equals-direct-propagation", self.fp(kind="no_error_for_invalid_range", prop_kind=kind, call="propagate"), f"interpolating a {len(self.table_ms(i))}-point ephemeris at order {self.kn.get('ephem_order', 8)} should be refused with ValueError, got {exc!r}")
+                ctx.violate("value-equals-direct-propagation", self.fp(kind="no_error_for_invalid_range", prop_kind=kind, call="propagate"), f"interpolating a {len(self.table_ms(i))}-point ephemeris at order {self.order_of(i)} should be refused with ValueError, got {exc!r}")
             else:
                 ctx.probe("expected_exception_raised")
             return
@@ -488,10 +508,19 @@ class Sim:
                 kw["dates"] = (d for d in kw["dates"])
         elif call.get("daterange") is not None:
             s, e, st, inc = call["daterange"]
-            try:
-                kw["dates"] = node.Date.range(ep + nt(milliseconds=s), ep + nt(milliseconds=e), nt(milliseconds=st), inclusive=inc)
-            except ValueError:
-                return None
+            shared = getattr(self, "shared_ranges", None)
+            key = (call.get("share_range"), s, e, st, inc)
+            if call.get("share_range") is not None and node is self.node and shared is not None and key in shared:
+                # the caller hands the very same DateRange object to several iterations (alive together or one after the other)
+                kw["dates"] = shared[key]
+                self.ctx.probe("date_range_object_shared")
+            else:
+                try:
+                    kw["dates"] = node.Date.range(ep + nt(milliseconds=s), ep + nt(milliseconds=e), nt(milliseconds=st), inclusive=inc)
+                except ValueError:
+                    return None
+                if call.get("share_range") is not None and node is self.node and shared is not None:
+                    shared[key] = kw["dates"]
         else:
             if call.get("start_ms") is not None:
                 kw["start"] = ep + nt(milliseconds=call["start_ms"])
